@@ -152,7 +152,7 @@ func ruleC01Secondary(w *World, r *Report) {
 				if sendMsgMethod(c) == add {
 					n++
 					name := f.Name()
-					okCaller := f == est || strings.Contains(w.Pos(f.Pos()), "grpcsim.go")
+					okCaller := f == est || strings.HasPrefix(w.FuncName(f), "pfcpiface.(*upf).sim")
 					r.check(okCaller, "R01.J1", w.FuncName(f), "only the establishment handler issues 'add'", w.Pos(c.Pos()), name, name+" issues an add with lists that are not built in lock-step")
 				}
 			}
@@ -254,8 +254,17 @@ func ruleC01Secondary(w *World, r *Report) {
 						}
 					})
 					okJ = alloc != nil && errGuardedStrict(f, alloc, st)
+				} else {
+					// carried over from a PDR that already has the mark: the store runs only under that PDR's allocIPFlag
+					okJ = onlyVia(g, st, func(a, b *ssa.BasicBlock) bool {
+						v, truth, ok := boolEdge(a, b)
+						if !ok || !truth {
+							return false
+						}
+						return strings.HasSuffix(symOf(v).String(), ".allocIPFlag") || loadsField(v, "allocIPFlag")
+					})
 				}
-				r.check(okJ, "R01.J5", w.FuncName(g), "allocIPFlag set only after a successful pool allocation", w.Pos(st.Pos()), "dominated by LookupOrAllocIP err == nil", "allocIPFlag can be set without a pool allocation: the session's release path then calls DeallocIP on a nil pool")
+				r.check(okJ, "R01.J5", w.FuncName(g), "allocIPFlag set only after a successful pool allocation", w.Pos(st.Pos()), "dominated by LookupOrAllocIP err == nil (or carried over from a marked PDR)", "allocIPFlag can be set without a pool allocation: the session's release path then calls DeallocIP on a nil pool")
 			}
 		}
 		r.floor("R01.J5 stores of allocIPFlag", n, 1)
